@@ -1,6 +1,7 @@
 package sim
 
 import (
+	"context"
 	"fmt"
 	"math/rand"
 	"strings"
@@ -553,7 +554,14 @@ func (e *Sim) actionFrom(w *World, r *rand.Rand, ns, name string, sh shape, edit
 		}},
 		{p.Overrides, func() { w.overridesAction(r, ns, name) }},
 		{p.Churn, func() {
-			switch r.Intn(5) {
+			switch r.Intn(6) {
+			case 5:
+				// the node is being deleted but a finalizer keeps it: it is still there, still schedulable
+				n := pickNode()
+				if n != "" {
+					w.MutateNode(n, "finalizer + delete (node stays, terminating)", func(nd *corev1.Node) { nd.Finalizers = []string{"example.com/node-hold"} })
+					_ = w.User.Delete(context.TODO(), &corev1.Node{ObjectMeta: metav1.ObjectMeta{Name: n}})
+				}
 			case 0:
 				w.AddNode(genNode(r, fmt.Sprintf("x%d", r.Intn(4))))
 			case 1:
@@ -593,6 +601,19 @@ func (e *Sim) actionFrom(w *World, r *rand.Rand, ns, name string, sh shape, edit
 				delete(o.(*v1.ExtendedDaemonSet).Annotations, v1.ExtendedDaemonSetOldDaemonsetAnnotationKey)
 			})
 			w.tracef("user: remove the old-daemonset annotation of %s/%s", ns, name)
+		}},
+		{0.08, func() {
+			// the ExtendedDaemonSet is deleted in the foreground and something holds the finalizer: the object,
+			// its replica sets and its pods are all still there, and it is still the controller's job
+			e0 := kit.GetEDS(w.S, ns, name)
+			if e0 == nil || e0.DeletionTimestamp != nil {
+				return
+			}
+			w.S.Mutate(simapi.KindEDS, ns, name, func(o client.Object) {
+				o.SetFinalizers([]string{"foregroundDeletion"})
+			})
+			_ = w.User.Delete(context.TODO(), &v1.ExtendedDaemonSet{ObjectMeta: metav1.ObjectMeta{Namespace: ns, Name: name}})
+			w.tracef("user: delete %s/%s in the foreground (finalizer held: the object stays, terminating)", ns, name)
 		}},
 		{p.Hostile, func() {
 			n := pickNode()
